@@ -39,10 +39,12 @@ type pdObs struct {
 	Got string `json:"got"`
 }
 
-func (Predecode) Name() string                    { return "Predecode" }
-func (Predecode) MC(tier string) (string, string) { return "MC_Predecode.tla", "MC_Predecode_" + tier + ".cfg" }
-func (Predecode) Trace() (string, string)         { return "Trace_Predecode.tla", "Trace_Predecode.cfg" }
-func (Predecode) Cap(tier string) int             { return 0 }
+func (Predecode) Name() string { return "Predecode" }
+func (Predecode) MC(tier string) (string, string) {
+	return "MC_Predecode.tla", "MC_Predecode_" + tier + ".cfg"
+}
+func (Predecode) Trace() (string, string) { return "Trace_Predecode.tla", "Trace_Predecode.cfg" }
+func (Predecode) Cap(tier string) int     { return 0 }
 func (Predecode) Layouts(tier string) int {
 	if tier == "thorough" {
 		return 4
